@@ -12,7 +12,8 @@ impl FormUrlEncoded {
             return Err(message)
         }
         let string = boxed_string.unwrap();
-        let string = string.replace(|x : char | x.is_ascii_control(), SYMBOL.empty_string).trim().to_string();
+        // only ASCII blanks are padding; other Unicode white space is text the client typed
+        let string = string.replace(|x : char | x.is_ascii_control(), SYMBOL.empty_string).trim_matches(|x : char | x.is_ascii_whitespace()).to_string();
 
 
         Ok(URL::parse_query(&string))
